@@ -247,6 +247,119 @@ func judge(s song) {
 	if len(s.sigs) > 1 && len(s.evs) > 0 {
 		ctx.NontrivialN(1)
 	}
+	if s.res == 960 && len(s.evs) >= 1 && len(s.evs) <= 2 && len(s.sigs) <= 3 {
+		imported(s, f1)
+	}
+}
+
+// expectedOf reads the bar model off the public fields of any *Song, however
+// it was obtained (built with AddBar, imported from a file, edited).
+func expectedOf(sq *sequencer.Song) (want []placed, end int64) {
+	t32 := int64(sq.Ticks.Ticks32th())
+	prev := [2]uint8{4, 4}
+	var start int64
+	for _, b := range sq.Bars() {
+		cur := b.TimeSig
+		if cur != [2]uint8{0, 0} && cur != prev {
+			want = append(want, placed{start, string(smf.MetaMeter(cur[0], cur[1]))})
+			prev = cur
+		}
+		for _, e := range b.Events {
+			m := e.Message
+			if len(m) == 0 || m[0] < 0x80 || m[0] >= 0xF0 {
+				continue // only channel messages (and time signatures) are compared
+			}
+			at := start + int64(e.Pos)*t32
+			want = append(want, placed{at, string(m)})
+			var ch, key, vel uint8
+			if m.GetNoteStart(&ch, &key, &vel) && e.Duration > 0 {
+				want = append(want, placed{at + int64(e.Duration)*t32, string(smf.Message(midi.NoteOff(ch, key)))})
+			}
+		}
+		start += int64(prev[0]) * 32 / int64(prev[1]) * t32
+	}
+	return want, start
+}
+
+// imported: the song is exported, imported again with FromSMF, edited through
+// its public fields and exported; the export must follow the bar model of the
+// edited song (second life of the events: nothing may be remembered from the
+// file they were imported from).
+func imported(s song, f1 smf.SMF) {
+	for edit := 0; edit < 4; edit++ {
+		var imp *sequencer.Song
+		c := engine.Catch(func() { imp = sequencer.FromSMF(f1) })
+		if c.Panicked || imp == nil || len(imp.Bars()) == 0 {
+			ctx.Add("imports_failed_not_judged", 1)
+			return
+		}
+		bars := imp.Bars()
+		what := "unedited"
+		switch edit {
+		case 1:
+			moved := false
+			for _, b := range bars {
+				for _, e := range b.Events {
+					if !moved && len(e.Message) > 0 && e.Message[0] >= 0x80 && e.Message[0] < 0xF0 && e.Pos < 200 {
+						e.Pos += 2
+						moved = true
+					}
+				}
+			}
+			what = "event-moved"
+			if !moved {
+				continue
+			}
+		case 2:
+			imp.Ticks = smf.MetricTicks(96)
+			what = "resolution-changed"
+		case 3:
+			if len(bars) < 2 {
+				continue
+			}
+			bars[0].TimeSig = [2]uint8{5, 8}
+			what = "first-bar-signature-changed"
+		}
+		ctx.Eval()
+		ctx.Add("imported_songs_exported", 1)
+		want, end := expectedOf(imp)
+		inside := true
+		for _, w := range want {
+			if w.tick > end {
+				inside = false
+			}
+		}
+		if !inside {
+			// the importer produced a song in which an event ends after the last
+			// bar: outside C20's domain ("any duration that ends within the song")
+			ctx.Add("imported_songs_outside_domain", 1)
+			continue
+		}
+		var g0, g1 smf.SMF
+		c = engine.Catch(func() { g0 = imp.ToSMF0(); g1 = imp.ToSMF1() })
+		if c.Panicked {
+			report(c.Sig+":imported:"+what, s, "export of an imported song panicked: "+c.Value)
+			return
+		}
+		for name, file := range map[string]smf.SMF{"SMF0": g0, "SMF1": g1} {
+			got, ends, closed := collect(file)
+			if !closed {
+				report("layout:imported:unterminated-track:"+what, s, "a track lacks its end-of-track")
+				return
+			}
+			w := append([]placed(nil), want...)
+			if d := diffPlaced(w, got); d != "" {
+				report("layout:imported:"+d+":"+what, s, fmt.Sprintf("%s of the imported and edited song (%s): got %v want %v", name, what, render(got), render(w)))
+				return
+			}
+			for ti, e := range ends {
+				if e != end {
+					report("layout:imported:end-of-track:"+what, s, fmt.Sprintf("%s track %d ends at %d, the last bar ends at %d", name, ti, e, end))
+					return
+				}
+			}
+		}
+	}
 }
 
 func render(p []placed) string {
@@ -383,6 +496,33 @@ func eventSpace(si int) {
 	}
 }
 
+// longSongs: more than 65535 thirty-second notes (2100 bars of 4/4, 350 bars
+// of 24/4, 300 bars of 7/1) with events in the first, a middle and the last bar.
+func longSongs() {
+	for _, c := range []struct {
+		sg   sig
+		bars int
+	}{{sig{4, 4}, 2100}, {sig{24, 4}, 350}, {sig{7, 1}, 300}, {sig{3, 8}, 5500}} {
+		for _, res := range []uint16{960, 8} {
+			s := song{res: res}
+			for b := 0; b < c.bars; b++ {
+				if b == 0 {
+					s.sigs = append(s.sigs, c.sg)
+				} else if b == c.bars/2 {
+					s.sigs = append(s.sigs, sig{c.sg.n, c.sg.d}) // same signature restated
+				} else {
+					s.sigs = append(s.sigs, sig{0, 0})
+				}
+			}
+			for i, b := range []int{0, c.bars / 2, c.bars - 1} {
+				s.evs = append(s.evs, ev{bar: b, track: i % 2, pos: 1, dur: 2, note: true, key: uint8(60 + i)})
+			}
+			judge(s)
+			ctx.Add("long_songs", 1)
+		}
+	}
+}
+
 func main() {
 	ctx = engine.Start("C20", "exploration")
 	if ctx.ReplayPath != "" {
@@ -405,6 +545,7 @@ func main() {
 	n := len(allSigs())
 	ctx.Jobs("signatures", n, func(j int) { signatureSpace(j) })
 	ctx.Jobs("events", 7, func(j int) { eventSpace(j) })
+	ctx.Jobs("long-songs", 1, func(int) { longSongs() })
 	ctx.Set("signatures", n)
 	ctx.Sample(map[string]interface{}{"song": "bars 6/8, 9/8, 12/8; note on track 7 at the last 32nd of bar 2 lasting across the bar line", "resolution": 96})
 	ctx.Guard(ctx.NontrivialCount() > 1000, "too few multi-bar songs with events")
